@@ -112,7 +112,7 @@ func runClone(hdr Header, c any, src string) CaseResult {
 		return fail("clone-differs", string(before), string(cb))
 	}
 	// equal in every field, including which slices and maps are nil and which are empty
-	if do, dc := dump(orig), dump(clone); do != dc {
+	if do, dc := dumpShape(orig), dumpShape(clone); do != dc {
 		return fail("clone-differs", do, dc)
 	}
 	// both under one parent still resolve (the tree check of Resolve)
